@@ -180,3 +180,106 @@ Theorem C12_put_sites_are_the_modelled_ones :
    "*node48.addChild"; "*node48.deleteChild"; "*node256.deleteChild"]%string.
 Proof. exact PoolSiteFacts.put_sites_are_the_modelled_ones. Qed.
 Print Assumptions C12_put_sites_are_the_modelled_ones.
+
+(* ================= C12 at tree level: whole trees over one shared pool =================
+   Model/PoolTree.v: the control flow of Model/Tree.v (Insert: overwrite / leaf split /
+   compressed-path split / descend and add; Delete: descend, deleteChild, node4 collapse) over RAW
+   nodes and a SHARED pool with an adversarial oracle: every new node4 comes out of the pool, grow /
+   shrink / collapse release the old node (cleared) into it, replaced children and header rewrites
+   are in-place writes.  tabs : xtree -> tree keeps the occupied cells only.  xtwf: the raw
+   invariant xwf at every inner node.  Proofs in Proofs/PoolTreeFacts.v. *)
+From GoArt Require Import Model.PoolTree Proofs.PoolTreeFacts.
+
+(* ---- the pool-passing operations are those of Model/Tree.v, for every answer of the pool ---- *)
+Theorem C12_xsearch_sim : forall fuel t gk tk d, xtwf t ->
+  xsearch fuel t gk tk d = search fuel (tabs t) gk tk d.
+Proof. exact xsearch_sim. Qed.
+Print Assumptions C12_xsearch_sim.
+
+(* Insert: on a tree that is WF (Spec/TreeSpec.v) below d consumed bytes, for a byte-string key that
+   shares those d bytes with the leaves (at the root: d = 0, no condition) *)
+Theorem C12_xinsert_sim : forall fuel t gk tk v d os p,
+  zero_pool p -> xtwf t -> WF d (tabs t) -> isbytes tk = true ->
+  shares d tk (leaves (tabs t)) -> (d <= length tk)%nat ->
+  ires_abs (fst (fst (xinsert fuel t gk tk v d os p))) = insert fuel (tabs t) gk tk v d /\
+  zero_pool (snd (xinsert fuel t gk tk v d os p)) /\
+  ires_wf (fst (fst (xinsert fuel t gk tk v d os p))).
+Proof. exact xinsert_sim. Qed.
+Print Assumptions C12_xinsert_sim.
+
+(* Delete: any raw-well-formed tree, any byte-string key *)
+Theorem C12_xdelete_sim : forall fuel t gk tk d os p,
+  zero_pool p -> xtwf t -> isbytes tk = true ->
+  dres_abs (fst (fst (xdelete_in fuel t gk tk d os p))) = delete_in fuel (tabs t) gk tk d /\
+  zero_pool (snd (xdelete_in fuel t gk tk d os p)) /\
+  dres_wf (fst (fst (xdelete_in fuel t gk tk d os p))).
+Proof. exact xdelete_sim. Qed.
+Print Assumptions C12_xdelete_sim.
+
+(* ---- out of a zero pool, the pool and its answers do not matter: ANY tree, ANY key, no invariant ---- *)
+Theorem C12_xstep_oracle_irrelevant : forall k st o os p, zero_pool p ->
+  fst (xstep k st o os p) = fst (xstep k st o [] []) /\ zero_pool (snd (xstep k st o os p)).
+Proof. exact xstep_irr. Qed.
+Print Assumptions C12_xstep_oracle_irrelevant.
+
+(* ---- one method call of one tree over the shared pool = Api.step on the abstracted state ---- *)
+Theorem C12_mstep_sim : forall m tid o os, zero_pool (mpool m) -> sinv (snd (trees m tid)) ->
+  upd_ok (kind_of m tid) (sabs (snd (trees m tid))) o ->
+  let m' := fst (mstep m (MOp tid o os)) in
+  snd (mstep m (MOp tid o os)) = [(tid, snd (Api.step (kind_of m tid) (sabs (snd (trees m tid))) o))] /\
+  sabs (snd (trees m' tid)) = fst (Api.step (kind_of m tid) (sabs (snd (trees m tid))) o) /\
+  kind_of m' tid = kind_of m tid /\
+  (forall j, j <> tid -> trees m' j = trees m j) /\
+  zero_pool (mpool m') /\ sinv (snd (trees m' tid)).
+Proof. exact mstep_sim. Qed.
+Print Assumptions C12_mstep_sim.
+
+(* ---- interleaving, unconditionally: ANY trees in ANY states, any kinds, any interleaving, any
+   answers of the pool, any drops -- every tree gives the outputs and ends in the state it has
+   alone over a private, always empty pool; the shared pool stays zero ---- *)
+Theorem C12_trees_alone : forall evs m, zero_pool (mpool m) ->
+  (forall tid, outputs_of tid (snd (mrun evs m)) =
+               snd (xalone (kind_of m tid) (snd (trees m tid)) (ops_of tid evs))) /\
+  (forall tid, snd (trees (fst (mrun evs m)) tid) =
+               fst (xalone (kind_of m tid) (snd (trees m tid)) (ops_of tid evs))) /\
+  (forall tid, kind_of (fst (mrun evs m)) tid = kind_of m tid) /\
+  zero_pool (mpool (fst (mrun evs m))).
+Proof. exact trees_alone. Qed.
+Print Assumptions C12_trees_alone.
+
+(* ---- MAIN: ... and those are the outputs of Model/Api.run on the tree's own operations, when the
+   tree starts empty and ITS OWN history is history_ok; the other trees are arbitrary ---- *)
+Theorem C12_trees_independent : forall evs m, zero_pool (mpool m) ->
+  forall tid, snd (trees m tid) = xinit -> history_ok (kind_of m tid) (ops_of tid evs) = true ->
+  outputs_of tid (snd (mrun evs m)) = snd (Api.run (kind_of m tid) Api.init (ops_of tid evs)).
+Proof. exact trees_independent. Qed.
+Print Assumptions C12_trees_independent.
+
+(* the same under the weaker, semantic condition: along Api.run every update key is a byte string and
+   every Insert meets a WF tree *)
+Theorem C12_trees_independent_gen : forall evs m tid, zero_pool (mpool m) -> snd (trees m tid) = xinit ->
+  wf_hist (kind_of m tid) Api.init (ops_of tid evs) ->
+  outputs_of tid (snd (mrun evs m)) = snd (Api.run (kind_of m tid) Api.init (ops_of tid evs)) /\
+  sabs (snd (trees (fst (mrun evs m)) tid)) = fst (Api.run (kind_of m tid) Api.init (ops_of tid evs)).
+Proof. exact trees_independent_gen. Qed.
+Print Assumptions C12_trees_independent_gen.
+
+(* ---- not vacuous ---- *)
+(* a node4 released by tree 0 (collapse) is handed to tree 1 (leaf split) by the pool *)
+Theorem C12_trees_recycle_example :
+  length (mpool (fst (mrun ex_evs0 ex_m0))) = 1%nat /\
+  length (mpool (fst (mrun (ex_evs0 ++ ex_evs1) ex_m0))) = 0%nat /\
+  length (mpool (fst (mrun (ex_evs0 ++ [MOp 1 (Insert (AB [120]) 3) []; MOp 1 (Insert (AB [121]) 4) [Fresh]]) ex_m0))) = 1%nat /\
+  history_ok KAlpha (ops_of 0 (ex_evs0 ++ ex_evs1)) = true /\
+  history_ok KAlpha (ops_of 1 (ex_evs0 ++ ex_evs1)) = true /\
+  outputs_of 1 (snd (mrun (ex_evs0 ++ ex_evs1) ex_m0)) = [OUnit; OUnit; OAbsent].
+Proof. exact trees_recycle_example. Qed.
+Print Assumptions C12_trees_recycle_example.
+
+(* over a pool holding ONE node4 with one stale cell the same tree finds a key it never inserted *)
+Theorem C12_trees_dirty_observable :
+  is_zero ex_dirty4 = false /\
+  outputs_of 1 (snd (mrun ex_evs1 (mkMstate (fun _ => (KAlpha, xinit)) [ex_dirty4]))) = [OUnit; OUnit; OFound 777] /\
+  snd (Api.run KAlpha Api.init (ops_of 1 ex_evs1)) = [OUnit; OUnit; OAbsent].
+Proof. exact trees_dirty_observable. Qed.
+Print Assumptions C12_trees_dirty_observable.
